@@ -211,7 +211,10 @@ func saveState(lastMessages map[string]interface{}) {
 		return
 	}
 	verifPoint("save.bakRemoved")
-	err = os.Rename(mainname, bakname)
+	// Keep the old file as the backup with a hard link rather than by renaming it away: the config file
+	// must exist at every instant, or a crash right here would make the next start-up begin from nothing.
+	// The rename below then replaces the main file atomically.
+	err = os.Link(mainname, bakname)
 	if err != nil && !os.IsNotExist(err) {
 		log.Println("Could not save backup file: ", err)
 		return
